@@ -91,6 +91,11 @@ def judge(c, prop, bads, lines, recs):
         if not what.startswith(prefixes):
             continue
         e = json.loads(lines[b["l"] - 1])
+        if e.get("fn") == "mutate":
+            c.violation(what, "after %s (%s): the database changed although this is a stuttering step: %s" % (e["op"], {"read": "a read-only call", "arguments": "the caller overwrote the arguments in place", "results": "the caller overwrote the returned values in place"}.get(e["what"], e["what"]),
+                        "stored documents differ" if e["pre"]["tok"] != e["post"]["tok"] else "observed state differs"),
+                        {"op": e["op"], "what": e["what"], "before": brief_state(e["pre"]["state"])[:1500], "after": brief_state(e["post"]["state"])[:1500]})
+            continue
         if e.get("fn") == "reload":
             c.violation(what, "%s: closing and reopening the file-backed database (history %s step %s): before {%s} log=%d events; after {%s} log=%d events%s" % (
                 what, e.get("hist"), e.get("step"), brief_state(e["pre"])[:500], len(e["preev"]), brief_state(e["post"])[:500], len(e["postev"]),
@@ -114,12 +119,15 @@ def judge(c, prop, bads, lines, recs):
 
 def cover(c, lines, nontrivial, stride=3):
     for i, line in enumerate(lines):
-        if i % stride:
+        if i % stride and '"fn":"call"' in line[:400]:
             continue
         e = json.loads(line)
         if e.get("fn") == "clean":
             if i % 50 == 0:
                 nontrivial.add(("clean", e["len"], e["dropped"], e["minSize"], e["maxSize"]))
+            continue
+        if e.get("fn") == "mutate":
+            nontrivial.add(("mutate", e["op"], e["what"]))
             continue
         if e.get("fn") == "reload":
             nontrivial.add(("reload", min(len(e["pre"]), 3), min(sum(len(n["idx"]) for n in e["pre"].values()), 6), min(len(e["preev"]), 10)))
